@@ -910,6 +910,10 @@ func (c *ctx) oneOf(k string, depth int) *spec.Spec {
 				dt = &spec.Spec{Kind: spec.KString}
 				if rapid.Bool().Draw(c.t, "discEnum") {
 					dt = &spec.Spec{Kind: spec.KEnumS, Enum: []spec.EnumVal{{S: m.KeyS, Display: &spec.DisplaySpec{}}}}
+					// the member's own discriminator property may be an enum over a named string type
+					if !useStructs && !c.o.Describable && rapid.Bool().Draw(c.t, "discTypedEnum") {
+						dt = &spec.Spec{Kind: spec.KTypedEnumS, Enum: []spec.EnumVal{{S: m.KeyS}}}
+					}
 				}
 			} else {
 				dt = &spec.Spec{Kind: spec.KInt}
